@@ -20,6 +20,7 @@ static Raw<Section> sect_store;
 static uint8_t buf[64];
 static int reports;
 static Error last_reported;
+static int n_logged;   // calls of the (stubbed) instruction logger
 
 static inline x86::Assembler* assembler() { return &asm_store.v; }
 static inline CodeHolder* holder() { return &code_store.v; }
@@ -30,7 +31,7 @@ static inline x86::Assembler* make_asm(bool x64, bool validate) {
   x86::Assembler* a = assembler(); CodeHolder* c = holder(); Section* s = text();
   memset((void*)&asm_store, 0, sizeof(asm_store)); memset((void*)&code_store, 0, sizeof(code_store)); memset((void*)&sect_store, 0, sizeof(sect_store));
   memset(buf, 0xCC, sizeof(buf));
-  reports = 0; last_reported = Error::kOk;
+  reports = 0; last_reported = Error::kOk; n_logged = 0;
   a->_code = c; a->_section = s;
   a->_emitter_type = EmitterType::kAssembler;
   c->_attached_first = a; c->_attached_last = a;   // as CodeHolder::attach() links the emitter
@@ -59,5 +60,7 @@ namespace EmitterUtils {
 Error log_instruction_failed(BaseEmitter* self, Error err, InstId, InstOptions, const Operand_&, const Operand_&, const Operand_&, const Operand_*) {
   self->reset_state(); return self->report_error(err);
 }
+// Logging of an emitted instruction is text formatting (C20); here it only counts.
+void log_instruction_emitted(BaseAssembler*, InstId, InstOptions, const Operand_&, const Operand_&, const Operand_&, const Operand_*, uint32_t, uint32_t, uint8_t*) { venv::n_logged++; }
 }
 ASMJIT_END_NAMESPACE
